@@ -3,6 +3,8 @@ import Pi2.MM.SliceThm
 import Pi2.MM.SliceVerify
 import Pi2.MM.SliceVerifyEx
 import Pi2.MM.SliceTie
+import Pi2.MM.AstTie
+import Pi2.MM.AstText
 /-!
 # C17 — Metamath databases survive printing, re-parsing and slicing
 
@@ -37,6 +39,16 @@ place in a slice", "keep an essential hypothesis stated outside a block …"), b
   (`SliceTie.tokensOk`: they are tokens, so none is one of the dictionary keys `'$d <n>'` of the top-level `$d`
   statements) and with `fuel ≥ stmtsSize db` for the `while` loop of `match_axiom`.  Hence `translated_slices_verify`:
   the slices computed by the translated slicer verify.
+* `parser_text_is_the_model`, `encoder_text_is_the_model`, `print_parse_text`: the parser callbacks, the grammar's statement
+  rules and the `Encoder` as TRANSLATED from the text of parser.py / ast.py on every run (`vlib/transmmast.py` →
+  `Pi2/Gen/MMAst.lean`) are the hand-written model (`Pi2/MM/AstTie.lean`): `parse_database` = `parseDb` on every token list;
+  the strings the `Encoder` writes, split at the ignored characters, = `printDb`; hence printing a parsed database and parsing
+  the text again gives the same database, for the translated functions.  Outside: lark's lexer / LALR(1) parser.
+* `print_parse_real_text`, `printer_text_is_tokens`, `printer_drops_blank_label` (`Pi2/MM/AstText.lean`): the same for the TEXT that
+  `Printer` (utils/printer.py; hand-written model `MMAstSup.Printer`, compared with the real text character by character by the
+  check) makes of the `Encoder`'s calls — for lexemes that do not END in a character Python's `str.isspace` accepts.  Without
+  that hypothesis the sentence is FALSE: `'\xa0 $a x $.'` parses (label `'\xa0'`), is printed as `'$a x $.'` — the label is taken
+  for indentation and dropped — and does not re-parse.
 -/
 namespace C17
 open MM
@@ -213,9 +225,96 @@ theorem translated_slicer_nonvacuous :
   rw [SliceTie.slice_database_eq_of_tokensOk _ _ _ _ _ (Nat.le_refl _) (by decide)]
   exact SliceEx.exDb_slices
 
+/-- **the source text of the parser is the model**: `Gen.MMAst.parse_database` (the rule functions generated from the lark
+grammar, calling the translated callbacks of `ASTTransformer`) is `parseDb` on EVERY token list (`none` = raises), for every
+fuel ≥ the number of tokens; the translated `parse_terms` is `parseTerms` for every `self.metavariables`; the grammar's keyword
+terminals are the model's; `Gen.MMAst.translated` says that every statement of every method and every grammar rule was
+recognised.  `AstTie.ofDb`: the model's AST inside the generated one (proof tokens ↦ the proof string `' '.join(tokens)`) -/
+theorem parser_text_is_the_model (F : Nat) (toks : List String) (hF : toks.length ≤ F) :
+    Gen.MMAst.translated = true ∧
+    Gen.MMAst.parse_database F toks = (parseDb toks).map AstTie.ofDb ∧
+    (∀ (self : Gen.MMAst.ASTTransformer) (G : Nat) (ts : List String), 3 * ts.length + 2 ≤ G →
+      Gen.MMAst.parse_terms self G ts = parseTerms self.metavariables ts) ∧
+    (∀ t : String, Gen.MMAst.keywords.contains t = isKeyword t) :=
+  ⟨AstTie.translated, AstTie.parse_database_eq F toks hF, fun self G ts h => AstTie.parse_terms_eq self G ts h,
+    AstTie.keywords_eq⟩
+
+/-- **the source text of the `Encoder` is the model**: the strings the translated `Encoder` writes (`omit_proof=False`) for a
+database / a statement / a term of the model, concatenated and split at the characters the grammar ignores, are `printDb` /
+`printStmt` / `printTerm` — when every string in it is a lexeme (`AstTie.Lex`: non-empty, without ignored characters) -/
+theorem encoder_text_is_the_model (self : Gen.MMAst.Encoder) (ho : self.omit_proof = false) :
+    (∀ (db : MDb), (∀ x ∈ printDb db, AstTie.Lex x) →
+      AstTie.lexTokens (MMAstSup.written (Gen.MMAst.encode self (AstTie.ofDb db))) = printDb db) ∧
+    (∀ (s : MStmt), (∀ x ∈ printStmt s, AstTie.Lex x) →
+      AstTie.lexTokens (MMAstSup.written (Gen.MMAst.visit_Stmt self (AstTie.ofStmt s)) ++ ['\n']) = printStmt s) ∧
+    (∀ (t : MTerm), (∀ x ∈ printTerm t, AstTie.Lex x) →
+      AstTie.lexTokens (MMAstSup.written (Gen.MMAst.visit_Term self t) ++ [' ']) = printTerm t) ∧
+    (∀ (pf : List String), (∀ x ∈ pf, AstTie.Lex x) →
+      AstTie.lexTokens ((MMAstSup.pyJoin " " pf).toList ++ [' ']) = pf) :=
+  ⟨fun db h => AstTie.encode_tokens self ho db h, fun s h => AstTie.encode_stmt_tokens self ho s h,
+    fun t h => AstTie.encode_term_tokens self t h, fun pf h => AstTie.proof_string_tokens pf h⟩
+
+/-- **C17, first sentence, for the translated functions**: if the translated `parse_database` parses the lexer's tokens
+`toks` to `db`, then the text the translated `Encoder` writes for `db` is lexed to `toks` again and parsed to `db` again -/
+theorem print_parse_text (F : Nat) (toks : List String) (db : Gen.MMAst.Database) (self : Gen.MMAst.Encoder)
+    (ho : self.omit_proof = false) (hlex : ∀ t ∈ toks, AstTie.Lex t) (hF : toks.length ≤ F)
+    (h : Gen.MMAst.parse_database F toks = some db) :
+    AstTie.lexTokens (MMAstSup.written (Gen.MMAst.encode self db)) = toks ∧
+    Gen.MMAst.parse_database F (AstTie.lexTokens (MMAstSup.written (Gen.MMAst.encode self db))) = some db :=
+  AstTie.print_parse_text F toks db self ho hlex hF h
+
+/-- non-vacuity: the example token list of `Pi2/MM/AstThm.lean` (a `$c`, a `$v`, two `$f`, an `$a` with nested parentheses, a block
+with `$e`, `$d`, `$p`) consists of lexemes, the translated parser accepts it, and it survives the round trip; the translated
+parser rejects `x $a ( a ) $.` and `$c $.` -/
+theorem print_parse_text_nonvacuous :
+    (∀ t ∈ MM.exToks, AstTie.Lex t) ∧
+    Gen.MMAst.parse_database MM.exToks.length MM.exToks = some (AstTie.ofDb MM.exDb) ∧
+    AstTie.lexTokens (MMAstSup.written (Gen.MMAst.encode Gen.MMAst.Encoder.new (AstTie.ofDb MM.exDb))) = MM.exToks ∧
+    Gen.MMAst.parse_database 6 ["x", "$a", "(", "a", ")", "$."] = none ∧ Gen.MMAst.parse_database 2 ["$c", "$."] = none :=
+  ⟨AstTie.exToks_lex, AstTie.ex_parse, AstTie.ex_roundtrip.1, AstTie.ex_rejects.1, AstTie.ex_rejects.2⟩
+
+/-- **`Printer` does not change the tokens** (model `MMAstSup.Printer` of utils/printer.py): when `tab` consists of characters
+the grammar ignores and the trailing Python-whitespace of every line of every written string is ignored by the grammar too
+(`AstText.callsOK`), the text `Printer` produces from the calls is lexed to the same tokens as the concatenation of the written
+strings; and the calls of the translated `Encoder` for a database of the model satisfy this and never fail (`AstText.Good`)
+when every string of the database is an `AstText.Tok` -/
+theorem printer_text_is_tokens :
+    (∀ (tab : String) (cs : List MMAstSup.PCall), AstText.WsOnly tab.toList → AstText.callsOK cs → ∀ text,
+      MMAstSup.printerText tab cs = some text → AstTie.lexTokens text = AstTie.lexTokens (MMAstSup.written cs)) ∧
+    (∀ (self : Gen.MMAst.Encoder), self.omit_proof = false → ∀ (db : MDb), (∀ x ∈ printDb db, AstText.Tok x) →
+      AstText.Good (Gen.MMAst.encode self (AstTie.ofDb db))) ∧
+    AstText.WsOnly Gen.MMAst.Encoder.new.tab.toList :=
+  ⟨AstText.printer_tokens, fun self ho db h => AstText.encode_calls_ok self ho db h, AstText.default_tab_ws⟩
+
+/-- **C17, first sentence, down to the characters `Printer` outputs**: translated parser, translated `Encoder`, `Printer` model.
+`toks`: lexemes that do not end in a character `str.isspace` accepts (`AstText.Tok`) -/
+theorem print_parse_real_text (F : Nat) (toks : List String) (db : Gen.MMAst.Database) (self : Gen.MMAst.Encoder)
+    (ho : self.omit_proof = false) (htab : AstText.WsOnly self.tab.toList) (htok : ∀ t ∈ toks, AstText.Tok t)
+    (hF : toks.length ≤ F) (h : Gen.MMAst.parse_database F toks = some db) :
+    ∃ text, MMAstSup.printerText self.tab (Gen.MMAst.encode self db) = some text ∧ AstTie.lexTokens text = toks ∧
+      Gen.MMAst.parse_database F (AstTie.lexTokens text) = some db :=
+  AstText.print_parse_real_text F toks db self ho htab htok hF h
+
+/-- the hypothesis `AstText.Tok` cannot be dropped: the tokens of `'\xa0 $a x $.'` are lexemes, the translated parser accepts them,
+the printed text is `'$a x $.\n'` (the label is gone) and is rejected (the real code behaves the same: `UnexpectedToken`) -/
+theorem printer_drops_blank_label :
+    (∀ t ∈ AstText.cexToks, AstTie.Lex t) ∧ Gen.MMAst.parse_database 4 AstText.cexToks = some (AstTie.ofDb AstText.cexDb) ∧
+    MMAstSup.printerText Gen.MMAst.Encoder.new.tab (Gen.MMAst.encode Gen.MMAst.Encoder.new (AstTie.ofDb AstText.cexDb)) =
+      some "$a x $.\n".toList ∧
+    AstTie.lexTokens "$a x $.\n".toList = ["$a", "x", "$."] ∧ Gen.MMAst.parse_database 4 ["$a", "x", "$."] = none ∧
+    AstText.tokB "\u00a0" = false :=
+  AstText.printer_drops_blank_label
+
 end C17
 
 #print axioms C17.slice_verifies
+#print axioms C17.printer_text_is_tokens
+#print axioms C17.print_parse_real_text
+#print axioms C17.printer_drops_blank_label
+#print axioms C17.parser_text_is_the_model
+#print axioms C17.encoder_text_is_the_model
+#print axioms C17.print_parse_text
+#print axioms C17.print_parse_text_nonvacuous
 #print axioms C17.slice_verifies_nonvacuous
 #print axioms C17.slice_keeps_disjointness
 #print axioms C17.slice_labels_present
